@@ -136,9 +136,12 @@ def build_lib(variant="asan"):
     with Lock("lib-" + variant):
         if os.path.exists(os.path.join(d, "libcares.a")):
             return d
-        # remove stale builds of this variant
-        for old in glob.glob(os.path.join(CACHE, "lib-%s-*" % variant)):
-            shutil.rmtree(old, ignore_errors=True)
+        # remove stale builds of this variant (keep the few most recent ones: other checks, or
+        # a run against another tree through VERIF_REPO, may be using them right now)
+        olds = sorted(glob.glob(os.path.join(CACHE, "lib-%s-*" % variant)), key=lambda q: os.path.getmtime(q), reverse=True)
+        for old in olds[4:]:
+            if time.time() - os.path.getmtime(old) > 1800:
+                shutil.rmtree(old, ignore_errors=True)
         os.makedirs(os.path.join(d, "obj"), exist_ok=True)
         t0 = time.time()
 
@@ -312,7 +315,7 @@ def build_ml(name, srcs, packages=()):
     with Lock("ml-" + name):
         if os.path.exists(out):
             return out
-        for old in glob.glob(os.path.join(CACHE, "ml", name + "-*")):
+        for old in sorted(glob.glob(os.path.join(CACHE, "ml", name + "-*")), key=lambda q: os.path.getmtime(q), reverse=True)[3:]:
             shutil.rmtree(old, ignore_errors=True)
         os.makedirs(d)
         local = []
@@ -322,7 +325,8 @@ def build_ml(name, srcs, packages=()):
 
             def inc(m):
                 return open(os.path.join(ROOT, "ocaml", m.group(1))).read()
-            txt = re.sub(r"\(\*INCLUDE ([A-Za-z0-9_.]+)\*\)", inc, txt)
+            for _ in range(4):
+                txt = re.sub(r"\(\*INCLUDE ([A-Za-z0-9_.]+)\*\)", inc, txt)
             with open(q, "w") as f:
                 f.write(txt)
             mli = p[:-3] + ".mli"
@@ -353,10 +357,19 @@ SAN_ENV = {
 }
 
 
-def run_impl(binary, casefile, outfile, n_cases, timeout=1200, extra_args=(), chunk=None, env_extra=None):
+def _san_excerpt(err, limit=6000):
+    """the first sanitizer report of a run (head of it), not the tail of the log"""
+    m = re.search(r"(WARNING: ThreadSanitizer|ERROR: AddressSanitizer|ERROR: LeakSanitizer|runtime error:)", err)
+    if m:
+        return err[max(0, m.start() - 200):m.start() + limit]
+    return err[-limit:]
+
+
+def run_impl(binary, casefile, outfile, n_cases, timeout=1200, extra_args=(), chunk=None, env_extra=None, per_case=False):
     """Run the implementation driver over the case file.  The driver prints, for case k
     (0-based), lines starting with "<k> ".  If it dies (sanitizer report, crash, timeout) the
     case being run is recorded as a monitor failure and the run resumes at the next case.
+    per_case=True starts one process per case (threaded engines: no cross-case interference).
     Returns a list of monitor failures: (case index, kind, text)."""
     env = dict(os.environ)
     env.update(SAN_ENV)
@@ -366,11 +379,13 @@ def run_impl(binary, casefile, outfile, n_cases, timeout=1200, extra_args=(), ch
     start = 0
     with open(outfile, "w") as fo:
         while start < n_cases:
-            cmd = [binary, casefile, str(start)] + list(extra_args)
-            t0 = time.time()
+            cmd = [binary, casefile, str(start)] + (["1"] if per_case else []) + list(extra_args)
             rc, out, err = sh(cmd, timeout=timeout, env=env)
             fo.write(out)
             if rc == 0:
+                if per_case:
+                    start += 1
+                    continue
                 break
             # find the last case that was started
             last = start
@@ -378,14 +393,14 @@ def run_impl(binary, casefile, outfile, n_cases, timeout=1200, extra_args=(), ch
                 m = re.match(r"^BEGIN (\d+)", line)
                 if m:
                     last = int(m.group(1))
-            kind = {99: "asan", 98: "ubsan", 97: "leak", 124: "timeout"}.get(rc, "crash(rc=%d)" % rc)
-            if rc == 99 and "LeakSanitizer" in err and "AddressSanitizer:" not in err:
+            kind = {99: "asan", 98: "ubsan", 97: "leak", 96: "tsan", 124: "timeout"}.get(rc, "crash(rc=%d)" % rc)
+            if "ThreadSanitizer" in err:
+                kind = "tsan"
+            elif rc == 99 and "LeakSanitizer" in err and "AddressSanitizer:" not in err:
                 kind = "leak"
-            if kind == "leak" and "BEGIN" not in out and start == 0 and False:
-                pass
-            fails.append((last, kind, err[-3000:]))
+            fails.append((last, kind, _san_excerpt(err)))
             fo.write("%d MONITOR %s\n" % (last, kind))
-            if kind == "leak" and rc in (97, 99) and ("DONE" in out):
+            if kind == "leak" and rc in (97, 99) and re.search(r"^DONE$", out, re.M) and not per_case:
                 # leak reported at exit after all cases ran: attribute to whole run
                 break
             start = last + 1
@@ -451,8 +466,11 @@ def known_findings(pid):
 # ------------------------------------------------------------------------------------------
 
 def write_evidence(pid, ev):
-    os.makedirs(os.path.join(ROOT, "evidence"), exist_ok=True)
-    p = os.path.join(ROOT, "evidence", pid + ".json")
+    # evidence/ is only for runs against the repository itself; runs against another tree
+    # (VERIF_REPO: seeded changes, scratch worktrees) leave their record under .cache
+    d = os.path.join(ROOT, "evidence") if os.path.realpath(REPO) == "/repo" else os.path.join(CACHE, "evidence-other-tree")
+    os.makedirs(d, exist_ok=True)
+    p = os.path.join(d, pid + ".json")
     with open(p + ".tmp", "w") as f:
         json.dump(ev, f, indent=1, sort_keys=True)
     os.replace(p + ".tmp", p)
@@ -460,7 +478,7 @@ def write_evidence(pid, ev):
 
 
 def write_replay(pid, obj):
-    d = os.path.join(ROOT, "replays")
+    d = os.path.join(ROOT, "replays") if os.path.realpath(REPO) == "/repo" else os.path.join(CACHE, "replays-other-tree")
     os.makedirs(d, exist_ok=True)
     name = "%s-%d-%s.json" % (pid, int(time.time()), sha(json.dumps(obj, sort_keys=True))[:8])
     p = os.path.join(d, name)
